@@ -159,7 +159,7 @@ def differences(base, other):
             for c in range(ncol):
                 x, y = ra[c], rb[c]
                 if isinstance(x, float) or isinstance(y, float):
-                    if x is None or y is None or abs(x - y) > 1e-9 * max(
+                    if x is None or y is None or not abs(x - y) <= 1e-9 * max(
                             scale[c], 1e-300) + 1e-12:
                         bad.append((name, 'row %r vs %r' % (ra, rb)))
                         done = True
